@@ -243,6 +243,7 @@ class NF:
         self.repo = repo
         self.inline_depth = inline_depth
         self.strip = set(strip)
+        self.keep_layout = set()
         self.inline_calls = inline_calls
         self.no_inline = set(no_inline or ())
         self.field_order = field_order  # namedtuple field names of a sampled batch, for `.reward` -> [2]
@@ -926,6 +927,11 @@ class NF:
                 kv = k_.const_value()
                 count = (args[1] - args[0]).scale(1 / kv)
                 return args[0] + self._libcall(op, [count], {}, e).scale(kv)
+        if short == "reshape" and len(args) == 2 and not kws and "reshape" not in self.keep_layout:
+            # x.reshape(-1) is ravel; x.reshape(y.shape) lays the same elements out like another array: value-transparent like squeeze / ravel
+            t_ = args[1]
+            if (t_.is_const() and t_.const_value() == -1) or (t_.single_atom() is not None and t_.single_atom().endswith(".shape")):
+                return args[0]
         if short in self.strip and args:
             p = args[0]
             if short == "stop_gradient":
